@@ -521,6 +521,33 @@ static std::vector<Scenario> scenariosC15(bool thorough, const vp::Args& A) {
       }
     }
   }
+  // an own exchange with exactly one repetition directly in front of the asked telegram (the asked telegram follows the
+  // SYN that ebusd itself wrote to close its exchange): the answering side starts from a clean state whatever came before
+  for (size_t si = 0; si < sets.size(); si++) {
+    if (sets[si].size() != 1) continue;
+    int ai = sets[si][0];
+    for (size_t ti = 0; ti < tels.size(); ti++) {
+      if (tels[ti].from != ai || tels[ti].m[0] != 0x10 || tels[ti].m.size() != 5 + U[ai].id.size() + (ref::isMaster(U[ai].dst) && !U[ai].answer.empty() ? U[ai].answer[0] : 0)) continue;
+      for (int hist = 0; hist < 2; hist++) for (int var = 0; var < 2; var++) {
+        Scenario s;
+        s.enhanced = 0; s.own = own; s.answer = true;
+        s.answers.push_back(U[ai]);
+        ReqSpec q;
+        if (hist == 0) { q.master = ref::unhex("3110b5100155"); q.responder = responder(q.master, Bytes{}, 1); }            // MM, NAK-ed once
+        else { q.master = ref::unhex("3115b509020d00"); q.responder = responder(q.master, ref::unhex("015a"), 3); }         // MS, response CRC bad once
+        q.kind = 0;
+        s.reqs.push_back(q);
+        AnswerMonitor probe(nullptr, s);
+        std::vector<int> c = probe.lookup(tels[ti].m);
+        int rs = c.empty() ? 1 : (int)ref::wirePart(s.answers[c[0]].answer).size();
+        s.foreign.push_back(askScript(tels[ti].m, rs, var));   // clean / bad CRC first, then the repetition
+        s.preSyns = 2; s.gapSyns = 0; s.tailSyns = 2;  // ebusd arbitrates at the second SYN it sees; no foreign SYN behind its exchange
+        s.k = var == 1 ? 0 : 1; s.c = 0;
+        s.name = std::string("plain/own-history") + std::to_string(hist) + "/set" + std::to_string(si) + "/tel" + ref::hex(tels[ti].m) + "/var" + std::to_string(var) + "/k" + std::to_string(s.k);
+        v.push_back(s);
+      }
+    }
+  }
   return v;
 }
 
